@@ -1,0 +1,25 @@
+//go:build verif
+
+// Contracts for package brush (comment-only; read by /verif/govc).
+
+package brush
+
+//@ func paintSeverity
+//@   requires [sb] sb != nil
+//@   assigns *sb
+//@   ensures [lossless] sb.plain == old(sb.plain) + ite(result, text, "")
+//@ func paintRemote
+//@   requires [sb] sb != nil
+//@   assigns *sb
+//@   ensures [lossless] sb.plain == old(sb.plain) + line
+//@ func paintClient
+//@   requires [sb] sb != nil
+//@   assigns *sb
+//@   ensures [lossless] sb.plain == old(sb.plain) + line
+//@ func paintServer
+//@   requires [sb] sb != nil
+//@   assigns *sb
+//@   ensures [lossless] sb.plain == old(sb.plain) + line
+//@ func Colorfy
+//@   assigns nothing
+//@   ensures [lossless] ufs_plain(result) == line
